@@ -57,7 +57,12 @@ def case_gen(draw, files=True):
         case['repeat'] = draw(st.sampled_from([1, 1, 40, 1500, 1500]))
         case['pad'] = draw(st.sampled_from([0, 7, 301, 301]))
         case['open_obj'] = draw(st.sampled_from([None, None, 'plain', 'short']))
-        case['twin'] = draw(st.integers(0, 3)) == 0
+        case['twin'] = draw(st.integers(0, 2)) == 0
+        if case['twin']:
+            # two dump pipelines alive at once only exist in the path mode; give them something to interleave
+            case['open_obj'] = None
+            if len(items) < 2:
+                case['items'] = items = items + [{'k': 1}, {'k': [2, 'x']}]
         case['rewrite'] = draw(st.integers(0, 3)) == 0
         case['skip'] = draw(st.sampled_from([None, 0, 1, 2]))
         case['odict'] = draw(st.integers(0, 3)) == 0
